@@ -233,6 +233,19 @@ func (s *slice) hasField(typ, field string) bool {
 	return false
 }
 
+// hasFieldNamed: slice contains an access to a field with this name (of any struct type).
+func (s *slice) hasFieldNamed(field string) bool {
+	for v := range s.vals {
+		if _, f, _, ok := fieldOfAddr(v); ok && f == field {
+			return true
+		}
+		if _, f, _, ok := fieldOfValue(v); ok && f == field {
+			return true
+		}
+	}
+	return false
+}
+
 func (s *slice) hasGlobal(pkg, name string) bool {
 	for v := range s.vals {
 		if g, ok := v.(*ssa.Global); ok && g.Name() == name && g.Pkg.Pkg.Path() == pkg {
